@@ -126,7 +126,14 @@ func (l *Listener) Wait(ctx context.Context) error {
 	// we wait either until the channel got closed or the context is done
 	select {
 	case <-l.channel:
-		return nil
+		// both channels can be closed when the select is reached: if the listener was de-registered in the meantime,
+		// the notification may have happened after the de-registration and must not be reported as a success
+		select {
+		case <-l.deregisteredChan:
+			return ErrListenerDeregistered
+		default:
+			return nil
+		}
 	case <-l.deregisteredChan:
 		return ErrListenerDeregistered
 	case <-ctx.Done():
